@@ -190,7 +190,9 @@ let parse_cfg_b toks =
   go toks;
   let ss = List.concat (List.rev_map (fun (sid, gid, mac) ->
       let (p4, p6) = try List.assoc gid !groups with Not_found -> (None, None) in
-      List.map (fun i -> new_sess (n_of_int (int_of_string sid + 100 * i)) false p4 p6 (nd mac)) [0; 1; 2; 3; 4; 5]) !sess) in
+      (* one model session per incarnation of a declared subscriber; a history of n events starts at most n of them *)
+      List.map (fun i -> new_sess (n_of_int (int_of_string sid + 100 * i)) false p4 p6 (nd mac))
+        (List.init 64 (fun i -> i))) !sess) in
   (init_state (List.rev !pools) ss, !queue, List.rev_map (fun (sid, _, _) -> sid) !sess)
 
 let find_model_sess (st : state) sid = List.find_opt (fun s -> s.s_id = sid) st.st_sess
